@@ -130,6 +130,7 @@ fn writer_phase(s: &C14, obs: &Rc<RefCell<Obs>>) -> Result<Written, Violation> {
         1 => max_payload,
         2 => max_payload.saturating_sub(1),
         3 => 8,
+        9 => u32::MAX as usize,
         _ => 512 * 1024,
     };
     let knob_at = if s.w_max_len_mode == 0 { 0 } else { s.w_knob_at as usize };
@@ -345,6 +346,7 @@ impl<'a> FamVisitor for RVisit<'a> {
             2 => largest_ok.saturating_sub(1),
             3 => 16,
             4 => 32 << 20,
+            9 => u32::MAX as usize,
             _ => 512 * 1024,
         };
         let knob_at = if s.r_max_len_mode == 0 { 0 } else { s.r_knob_at as usize };
@@ -931,6 +933,9 @@ impl Property for P14 {
             let lane = if g == u32::MAX { vec![] } else { vec![Step::Xfer(g); 8] };
             out.push(C14 { w_max_len_mode: 1, r_max_len_mode: 4, r_src: lane.clone(), w_sink: lane, ..base(Ty::Str, vec![WKind::Val(ValSpec { ty: Ty::Str, size: 3, seed: 7 }), huge.clone(), WKind::Val(ValSpec { ty: Ty::Str, size: 3, seed: 8 })]) });
         }
+        // the 'no limit' setting: set_max_len(u32::MAX) on both sides
+        out.push(C14 { w_max_len_mode: 9, r_max_len_mode: 9, ..base(Ty::Str, vals(Ty::Str, &[0, 5, 300])) });
+        out.push(C14 { w_max_len_mode: 9, r_max_len_mode: 9, w_knob_at: 1, r_knob_at: 1, r_src: vec![Step::Xfer(1); 40], ..base(Ty::Str, vals(Ty::Str, &[0, 5, 300])) });
         // (k) more than 65536 frames through one writer and one reader (16-bit counters)
         out.push(base(Ty::U64, (0..65_700u64).map(|i| WKind::Val(ValSpec { ty: Ty::U64, size: 0, seed: i })).collect()));
         out
@@ -1060,13 +1065,13 @@ impl Property for P14 {
         C14 {
             family,
             items,
-            w_max_len_mode: if r.chance(1, 4) { 1 + r.below(3) as u8 } else { 0 },
+            w_max_len_mode: if r.chance(1, 4) { 1 + r.below(3) as u8 } else if r.chance(1, 12) { 9 } else { 0 },
             w_init_buf: if let (Some(n), true) = (shape.roomy_init, roomy_w) { n } else if r.chance(1, 3) { r.range(1, 300) as u32 } else { 0 },
             w_use_ctx: r.chance(1, 8),
             w_sink,
             w_fatal,
             cut,
-            r_max_len_mode: if r.chance(1, 3) { 1 + r.below(3) as u8 } else { 0 },
+            r_max_len_mode: if r.chance(1, 3) { 1 + r.below(3) as u8 } else if r.chance(1, 12) { 9 } else { 0 },
             r_init_buf: if let (Some(n), false) = (shape.roomy_init, roomy_w) { n } else if r.chance(1, 3) { r.range(1, 300) as u32 } else { 0 },
             r_use_ctx: r.chance(1, 8),
             r_src,
